@@ -29,6 +29,7 @@ type Report struct {
 	Broken   []string // checker-broken conditions (vacuous rule, anchor missing)
 	start    time.Time
 	Stats    map[string]int
+	Extra    map[string]interface{} // additional evidence (self-test results)
 }
 
 func NewReport(prop, tier string) *Report {
@@ -237,6 +238,9 @@ func (r *Report) Finish(verifDir string, meta propMeta, cmdline string, seed int
 		"exhaustive":             false,
 	}
 	for k, v := range r.Stats {
+		cov[k] = v
+	}
+	for k, v := range r.Extra {
 		cov[k] = v
 	}
 	ev := evidence{PropertyID: r.Property, Tier: r.Tier, Seed: seed, Level: "other", Coverage: cov,
